@@ -322,6 +322,23 @@ u_setup(uint64_t idx, void *arg)
     (void)idx;
     unsigned char *mem = vh_arena(16);
     ByteBuffer b;
+    /* a descriptor that is given up: whatever state the buffer was in, afterwards it describes nothing - no memory,
+     * nothing filled, nothing unread, no room */
+    for (size_t size = 1; size <= 6; size++)
+        for (size_t used = 0; used <= size; used++)
+            for (size_t off = 0; off <= used; off++) {
+                VH_CASE4(size, used, off, 7);
+                if (byte_buffer_set(&b, mem, size, used, off) != 0) {
+                    vh_fail("set-valid", "op=set", "size=%zu used=%zu offset=%zu refused", size, used, off);
+                    continue;
+                }
+                byte_buffer_null(&b);
+                if (b.data != NULL || b.size != 0 || b.used != 0 || b.offset != 0 || byte_buffer_avail(&b) != 0 || byte_buffer_rest(&b) != 0)
+                    vh_fail("null", "op=null", "from size=%zu used=%zu offset=%zu: data=%p size=%zu used=%zu offset=%zu avail=%zu rest=%zu", size, used,
+                            off, (void *)b.data, b.size, b.used, b.offset, byte_buffer_avail(&b), byte_buffer_rest(&b));
+                VH_COUNT("descriptor given up (byte_buffer_null)");
+                (*vh_ncases)++;
+            }
     for (size_t size = 0; size <= 6; size++)
         for (size_t used = 0; used <= 7; used++)
             for (size_t off = 0; off <= 8; off++)
